@@ -17,6 +17,7 @@ mod u5e;
 mod u5d;
 mod u6;
 mod u6b;
+mod u6c;
 mod u8;
 mod u8b;
 mod u9;
@@ -71,6 +72,8 @@ fn main() {
     ("u6", "replay") => u6::replay(rest),
     ("u6b", "find") => u6b::find(rest),
     ("u6b", "replay") => u6b::replay(rest),
+    ("u6c", "find") => u6c::find(rest),
+    ("u6c", "replay") => u6c::replay(rest),
     ("u8", "find") => u8::find(rest),
     ("u8", "replay") => u8::replay(rest),
     ("u8b", "find") => u8b::find(rest),
